@@ -34,7 +34,20 @@ class ProgramProperty:
 
     # ---- execution -------------------------------------------------------------------------
     def run_impl(self, case) -> list:
-        return common.run_impl(case["steps"])
+        """Run the program on the real library.  A property may add a second phase of steps that
+        depend on what the implementation answered in the first (e.g. expand what compress returned);
+        the added steps become part of the case, so replays and the model see the same program."""
+        impl = common.run_impl(case["steps"])
+        if not case.get("phase2_done"):
+            extra = self.phase2(case, impl)
+            if extra:
+                case["steps"] = case["steps"] + extra
+                impl = common.run_impl(case["steps"])
+            case["phase2_done"] = True
+        return impl
+
+    def phase2(self, case, impl) -> list:
+        return []
 
     def request(self, case, impl) -> dict:
         req = {"k": "prog", "steps": case["steps"], "obs": impl,
@@ -47,6 +60,10 @@ class ProgramProperty:
         return common.compare_program(case["steps"], impl, resp["model"])
 
     def extra_fails(self, case, impl, resp) -> list[str]:
+        return self.laws(case, impl)
+
+    def laws(self, case, impl) -> list[str]:
+        """The property's own laws evaluated directly on the implementation's outputs."""
         return []
 
     # ---- bookkeeping -----------------------------------------------------------------------
@@ -134,3 +151,68 @@ class ProgramProperty:
                         c["steps"][i]["s"], c["steps"][i]["p"] = s, p
                         out.append(c)
         return out[:200]
+
+
+# ---- helpers for law checks --------------------------------------------------------------
+
+
+def results(case, impl) -> dict:
+    """(slot, method, args as str tuple, strict, passthrough) -> decoded python value / ('EXC', name)."""
+    out = {}
+    for st, v in zip(case["steps"], impl):
+        if st["op"] != "q":
+            continue
+        key = (st["c"], st["m"], tuple(uncps(a) for a in st.get("a", [])), bool(st.get("s")), bool(st.get("p")))
+        out[key] = pyval(v)
+    return out
+
+
+def pyval(v):
+    if v is None or isinstance(v, bool):
+        return v
+    if "s" in v:
+        return uncps(v["s"])
+    if "pr" in v:
+        return (uncps(v["pr"][0]), uncps(v["pr"][1]))
+    if "l" in v:
+        return [uncps(x) for x in v["l"]]
+    if "e" in v:
+        return ("EXC", v["e"])
+    if "r" in v:
+        return [{"p": uncps(r["p"]), "u": uncps(r["u"]), "ps": [uncps(x) for x in r["ps"]],
+                 "us": [uncps(x) for x in r["us"]], "pat": None if r.get("pat") is None else uncps(r["pat"])}
+                for r in v["r"]]
+    if "d" in v:
+        return {uncps(k): uncps(x) for k, x in v["d"]}
+    return v
+
+
+class _Missing:
+    def __repr__(self):
+        return "<not queried>"
+
+
+MISSING = _Missing()
+
+
+class Getter:
+    """`g(method, *args, s=False, p=False)` -> value, or MISSING if the (shrunk) case has no such query."""
+
+    def __init__(self, case, impl, slot=0):
+        self.res = results(case, impl)
+        self.slot = slot
+
+    def __call__(self, m, *a, s=False, p=False, c=None):
+        return self.res.get((self.slot if c is None else c, m, tuple(a), s, p), MISSING)
+
+
+def have(*vals) -> bool:
+    return all(v is not MISSING for v in vals)
+
+
+def is_exc(v) -> bool:
+    return isinstance(v, tuple) and len(v) == 2 and v[0] == "EXC"
+
+
+def init_step(dst, recs, delim=":", strict=True):
+    return {"op": "init", "dst": dst, "records": recs, "delim": cps(delim), "strict": strict}
